@@ -652,7 +652,7 @@ def install(coarse_mcs=True):
 
     from synrbl.SynChemImputer import curate_oxidation as _co
 
-    toks = set(["O", "[H]", "[O]", "[H][H]", "OO", "[Na]", "[K]", "[Li]", "[H-]", "[H+]", "[Na+]", "[Cl-]", "O=O"])
+    toks = set(["O", "[H]", "[O]", "[H][H]", "[HH]", "OO", "[Na]", "[K]", "[Li]", "[H-]", "[H+]", "[Na+]", "[Cl-]", "O=O"])
     for grp in _co.reaction_templates.values():
         for t in grp.values():
             for v in (t.values() if "reactants" not in t else [t]):
